@@ -3,8 +3,10 @@ CONSTANTS
   PKeys = {"a", "b", "c", "plan_name", "scan_id"}
   OKeys = {"a", "b", "c", "plan_name", "scan_id"}
   KKeys = {"a", "b", "c", "plan_name", "scan_id"}
-  Vals = {1, 2, 3}
-  Idents = {11, 12, 23, 24}
+  PVals = {1, 2, 3}
+  OVals = {1, 2, 3}
+  KVals = {1, 2, 3}
+  Idents = {11, 23, 24}
   VModes = {"accept", "reject"}
   NModes = {"identity", "rename", "reject"}
   RenFrom = "a"
